@@ -375,6 +375,7 @@ type operation struct {
 	compressors compressionMap
 
 	queryVars       url.Values
+	rawQuery        string // the query as the client sent it (the URL is rewritten for the backend)
 	originalHeaders http.Header
 	reqContentType  string      // original content-type in incoming request headers
 	rspContentType  string      // original content-type in outgoing response headers
@@ -411,6 +412,7 @@ func (o *operation) validate(transcoder *Transcoder) error {
 		return newHTTPError(http.StatusUnsupportedMediaType, "could not classify protocol")
 	}
 	o.client.protocol = clientProtoHandler
+	o.rawQuery = o.request.URL.RawQuery
 	if queryVars != nil {
 		// memoize this, so we don't have to parse query string again later
 		o.queryVars = queryVars
